@@ -178,6 +178,10 @@ def m1_oracle(script, impl):
         if line.startswith("TIMEOUT") or line.startswith("CRASH"):
             return k, "the real code hung or crashed on a command that terminates in the model"
         if bad:
+            if any(b.startswith("NOLOCK") for b in bad):
+                return k, "`%s` modified a queue without taking its lock (%s): concurrent enqueue/dequeue/steal can corrupt it" % (cmd, " ".join(bad))
+            if any(b.startswith("LOCKLEAK") for b in bad):
+                return k, "`%s` left a queue lock unbalanced (%s): the next operation on that queue blocks for ever" % (cmd, " ".join(bad))
             return k, "queue audit failed after `%s`: %s" % (cmd, " ".join(bad))
         for j, q in enumerate(qs):
             if q["len"] != len(q["items"]) or q["stl"] != sum(b for _, b in q["items"]):
@@ -523,7 +527,10 @@ def run(ctx):
             if nfail_p >= 2:        # two hangs are enough evidence; do not spend 15 s on each remaining case
                 break
         if not out or not out[0].startswith("H "):
-            raise core.BuildError("c08 live harness did not start on 1x1: rc=%s %s" % (rc, err[-400:]))
+            why = "the real runtime crashed or hung at start-up on 1x1 (rc=%s) although the same binary ran the m1 scripts" % rc
+            mismatches.append(("live-1x1", {"rc": rc, "stderr": err[-300:]}))
+            rejects.append(("live-crash", why, {"mode": "live-1x1", "case": plines[pos - 1] if pos else None, "rc": rc, "reason": why}))
+            break
     for l, exp, got in zip(plines, pexp, pgot):
         evals += 1
         hist["P"] = hist.get("P", 0) + 1
@@ -549,7 +556,11 @@ def run(ctx):
             lines.append("N %d %d" % (rng.choice([1, 1, 2, 3, 5, 8, 17, 40]), rng.choice([0, 0, 1, 4, 9])))
         rc, out, err = core.run_lines(exe, lines, timeout=400, env=core.qenv(n, w, stack=65536, QT_STEAL_CHUNK=ch), args=["live"])
         if not out or not out[0].startswith("H "):
-            raise core.BuildError("c08 live harness did not start on %dx%d: rc=%s %s" % (n, w, rc, err[-400:]))
+            why = "the real runtime crashed or hung on %dx%d (rc=%s) while running scenarios that need a steal: %s" % (n, w, rc, lines)
+            mismatches.append(("live-steal", {"rc": rc, "stderr": err[-300:]}))
+            rejects.append(("live-crash", why, {"mode": "live-need-steal", "shepherds": n, "workers_per_shepherd": w, "QT_STEAL_CHUNK": ch,
+                                                 "scenarios": lines, "rc": rc, "reason": why}))
+            continue
         body = out[1:]
         for i, l in enumerate(lines):
             evals += 1
